@@ -9,20 +9,24 @@ def short(x, n):
 def order(p):
     b = os.path.basename(p); m = re.match(r'(C\d+)-(r(\d))?([a-z])', b)
     return (m.group(1), int(m.group(3) or 1), m.group(4))
-missed = pre = 0
+missed = pre = notc = 0
 for d in sorted(glob.glob('/verif/seeded/C*'), key=order):
     m = json.load(open(d + '/meta.json'))
     det = m.get('detection', {})
     change = m.get('summary') or m.get('change') or m.get('description') or ''
     needs = m.get('needs') or m.get('needs_to_manifest') or m.get('trigger') or m.get('manifests_when') or m.get('requires') or ''
-    c = '%s: `%s`' % (det.get('caught_by', '?').split()[2] if det.get('caught_by') else '?', det.get('first_violated_check', '?'))
-    if det.get('missed_at_first'):
+    if det.get('not_caught'):
+        c = '**not caught** (see meta.json: indistinguishable from pinned-tree behaviour)'
+        notc += 1
+    else:
+        c = '%s: `%s`' % (det.get('caught_by', '?').split()[2] if det.get('caught_by') else '?', det.get('first_violated_check', '?'))
+    if det.get('missed_at_first') and not det.get('not_caught'):
         if det.get('miss_observed_by_run'):
             c += ' (missed by a run first; strengthened)'; missed += 1
         else:
             c += ' (strengthened before the first run)'; pre += 1
     rows.append('| %s | %s | %s | %s |' % (m['id'], short(change, 220), short(needs, 160), c))
 out = head + '| id | change | needs | caught by (quick tier): first violated check |\n|---|---|---|---|\n' + '\n'.join(rows) + '\n'
-out += '\n%d changes; %d were missed by a run of the checks as they were and led to a strengthening; %d more led to a strengthening after reading the report, before the first run. All are caught by the quick tier now.\n' % (len(rows), missed, pre)
+out += '\n%d changes; %d were missed by a run of the checks as they were and led to a strengthening; %d more led to a strengthening after reading the report, before the first run. %d is not caught (C19-r4b, explained in its meta.json and in DESIGN.md); all others are caught by the quick tier now.\n' % (len(rows), missed, pre, notc)
 open('/verif/seeded/INDEX.md', 'w').write(out)
 print(len(rows), missed, pre)
